@@ -1122,6 +1122,16 @@ func mainWork() {
 			}
 		}
 	}
+	// 4c. large backlogs: one call of f adds thousands of items (the queue grows far beyond any
+	// initial capacity and then drains), for few and for many runners; direct oracles only
+	for _, fan := range []int{1100, 2600, 5000} {
+		for _, n := range []int{1, 2, 5} {
+			if enough() {
+				break
+			}
+			backlogCase(fan, n, r)
+		}
+	}
 	// 5. the same with every shim operation a scheduling point (pre-emption inside critical sections and
 	// between Unlock and the next statement); direct oracles only
 	nFine := 1500
@@ -1150,6 +1160,37 @@ func mainWork() {
 	res.Exhaustive = allCovered
 	_ = exhaustiveAll
 	res.Rule = fmt.Sprintf("real par.Work on the vsync scheduler (instrumented copy regenerated from the source): exhaustive DFS over all schedules with <= %d pre-emptions (cap %d runs per configuration) for n in 1..3 over %d configurations (item graphs of <= 8 nodes, the nil interface value among the items, empty initial sets included; items are Go values of mixed dynamic types whose printed forms collide), incl. every Intn answer and every choice of the woken waiter; %d complete schedules drawn from the Coq model and replayed on the code; %d random / priority-based schedules for n <= 8 and random graphs of <= 24 items; a TRANSITION COVER of the model's complete state graph for each of these configurations whose graph has <= %d states (every transition of every reachable state taken on the code at least once; `exhaustive` = the cover was complete for all of them); %d runs whose initial Adds are made concurrently by 2-3 goroutines before Do; every executed schedule is replayed on the extracted model (event trace + runnable set after every step); %d further random schedules at the granularity of single sync operations (direct oracles only); the model's own state space is explored exhaustively for the small configurations. A case is non-trivial when its schedule has a pre-emption, a park or a Signal wake-up; distinct = distinct (configuration, event trace).", bound, maxRuns, len(smallGraphs()), nModel, nRand, coverCap, nPre, nFine)
+}
+
+// backlogCfg: item 0 adds items 1..fan from inside f; when fan > 2000 the last of them adds 300 more
+func backlogCfg(fan, n int) workCfg {
+	g := make([][]int, fan+1)
+	for i := 1; i <= fan; i++ {
+		g[0] = append(g[0], i)
+		g[i] = []int{}
+	}
+	if fan > 2000 {
+		for i := 0; i < 300; i++ {
+			g = append(g, []int{})
+			g[fan] = append(g[fan], len(g)-1)
+		}
+	}
+	return workCfg{n: n, g: g, inits: []int{0}}
+}
+
+func backlogCase(fan, n int, r *common.RNG) {
+	c := backlogCfg(fan, n)
+	var st vsync.Strategy = &prefixStrat{}
+	if n == 2 && r != nil {
+		st = &randStrat{r: r.Fork()}
+	}
+	out := runWork(c, st)
+	res.Case(fmt.Sprintf("backlog#%d#%d", fan, n), true)
+	res.Count("src:large-backlog")
+	for _, f := range workOracles(c, out) {
+		violate(f.oracle, f.detail, map[string]string{"prop": "C09", "cfg": fmt.Sprintf("backlog %d %d", fan, n), "decisions": "-", "mode": "direct", "source": "large-backlog",
+			"text": fmt.Sprintf("Work.Do(n=%d); item 0 adds items 1..%d from inside f (and item %d adds 300 more when fan > 2000); %s", n, fan, fan, f.detail)})
+	}
 }
 
 func parseSched(s string) [][2]int {
@@ -2142,6 +2183,11 @@ func replayInput(in map[string]string, src string) {
 	if prop == "C09" {
 		c, ok := parseWorkCfg(in["cfg"])
 		if !ok {
+			var fan, n int
+			if k, _ := fmt.Sscanf(in["cfg"], "backlog %d %d", &fan, &n); k == 2 && fan > 0 && fan <= 100000 && n > 0 {
+				backlogCase(fan, n, nil)
+				return
+			}
 			if strings.HasPrefix(in["cfg"], "parrace") {
 				raceEvidence("work", 5*time.Second, false)
 			}
